@@ -26,6 +26,7 @@ type C10Scn struct {
 	Clock    int      `json:"clock_moves"`   // clock advances the scheduler may take
 	HooksLate bool    `json:"hooks_late,omitempty"`   // the hooks are assigned after Refresh, not before
 	ConLayout string  `json:"console_layout,omitempty"` // sync/async: a second reference to a Console appender with this layout
+	Overflow bool     `json:"overflow,omitempty"`  // async logger (Discard policy) driven into overflow first: records emitted afterwards still carry exactly their own call's hook results
 	RefLevel string   `json:"ref_level,omitempty"` // sync/async: the only reference carries a level of its own (what the appender accepts is not what the logger enables)
 	Rolling  bool     `json:"rolling_ref,omitempty"` // sync/async: one more reference, to a RollingFile appender (a component with a clock of its own)
 	Style    Style    `json:"style"`
@@ -78,6 +79,7 @@ func (c10) Gen(rt *rapid.T, thorough bool) any {
 	s.HooksLate = rapid.IntRange(0, 3).Draw(rt, "hooks_late") == 0
 	s.ConLayout = rapid.SampledFrom([]string{"", "JSONLayout", "TextLayout"}).Draw(rt, "con_layout")
 	s.Rolling = rapid.IntRange(0, 3).Draw(rt, "rolling_ref") == 0
+	s.Overflow = rapid.IntRange(0, 9).Draw(rt, "overflow10") == 0
 	if rapid.IntRange(0, 3).Draw(rt, "ref_level") == 0 {
 		s.RefLevel = rapid.SampledFrom([]string{"INFO", "WARN~FATAL", "ERROR", "debug~info"}).Draw(rt, "ref_level_v")
 		s.ConLayout, s.Rolling = "", false
@@ -85,10 +87,94 @@ func (c10) Gen(rt *rapid.T, thorough bool) any {
 	return s
 }
 
-func (c10) Run(x *Exec, scn any) {
+// runOverflow: an AsyncLogger with the Discard policy is filled beyond its capacity while its worker
+// is held (so some events are discarded after the hooks ran), then drained; what is logged
+// afterwards must carry exactly its own context string, context fields and time.
+func (c10) runOverflow(x *Exec, s *C10Scn) {
+	o := x.Out
+	installHooks(true, true, true)
+	tag := log.RegisterTag("hook_tag")
+	rec := getRec("rec")
+	rec.SetGate()
+	spec := &SysSpec{Style: s.Style, Props: map[string]string{}, Apps: []AppSpec{{Name: "rec", Type: "Rec"}},
+		Logs: []LogSpec{{Name: "lg", Type: "AsyncLogger", Tags: []string{"hook_*"}, BufferSize: 100, Policy: "Discard", Refs: []RefSpec{{Ref: "rec"}}}}}
+	cfg := spec.Render()
+	var err error
+	if !x.do("refresh", func() { call(func() { err = log.Refresh(cfg) }) }) || err != nil {
+		o.violate("refresh-failed", "C10/refresh-failed/overflow", "Refresh failed on a valid configuration: %v", err)
+		return
+	}
+	var late []*Submitted
+	x.Sim.Spawn("client0", func() {
+		for i := 0; i < 125; i++ {
+			emit(0, i, tag, "hook_tag", EvOp{Kind: 2, Size: 4, Ctx: 3}, log.ErrorLevel)
+		}
+	})
+	x.Sim.Run(x.harnessTasksDone)
+	drain := func() {
+		for round := 0; round < 100000; round++ {
+			x.Sim.Run(nil)
+			if !rec.CanOpen() {
+				return
+			}
+			rec.Open()
+		}
+	}
+	drain()
+	x.Sim.Spawn("client1", func() {
+		for i := 0; i < 8; i++ {
+			late = append(late, emit(1, 500+i, tag, "hook_tag", EvOp{Kind: i % 3, Size: 4, Ctx: 1 + i%3}, log.InfoLevel))
+		}
+	})
+	drain()
+	x.Sim.Spawn("stopper", log.Destroy)
+	drain()
+	judgeDied(x, "C10")
+	x.Sim.Close()
+	byID := map[string][]*RecEvent{}
+	for _, it := range rec.snapshot() {
+		if it.Ev != nil {
+			byID[it.Ev.ID] = append(byID[it.Ev.ID], it.Ev)
+		}
+	}
+	o.Reached = len(rec.snapshot()) < 125+8 // something was discarded
+	for _, sb := range late {
+		evs := byID[sb.ID]
+		if len(evs) != 1 {
+			o.violate("emit-count", fmt.Sprintf("C10/emitted-%d-times-expected-1", len(evs)), "%s logged after the overflow was emitted %d times", sb.ID, len(evs))
+			continue
+		}
+		k := evKey{task: sb.Task, seq: sb.Seq}
+		mode := 1 + (sb.Seq-500)%3
+		k.ctxMode = mode
+		var want []log.Field
+		if mode&2 != 0 {
+			want = append(want, ctxFields(k)...)
+		}
+		want = append(want, sb.Fields...)
+		var buf bytes.Buffer
+		enc := log.NewJSONEncoder(&buf)
+		enc.AppendEncoderBegin()
+		log.EncodeFields(enc, want)
+		enc.AppendEncoderEnd()
+		wantCtx := ""
+		if mode&1 != 0 {
+			wantCtx = ctxString(k)
+		}
+		if evs[0].Fields != buf.String() || evs[0].Ctx != wantCtx {
+			o.violate("record-content", "C10/record-content/after-overflow", "%s logged after an overflow carries fields %s and context %q; its own call produced %s and %q", sb.ID, short(evs[0].Fields, 220), evs[0].Ctx, short(buf.String(), 220), wantCtx)
+		}
+	}
+}
+
+func (c c10) Run(x *Exec, scn any) {
 	s := scn.(*C10Scn)
 	o := x.Out
 	o.ScnDistinct = true
+	if s.Overflow {
+		c.runOverflow(x, s)
+		return
+	}
 	if !s.HooksLate || s.Mode == "builtin" {
 		installHooks(s.TimeHook, s.StrHook, s.FldHook)
 	}
